@@ -188,8 +188,10 @@ def build_e2e(ck, rng, tier):
         tcp = (i % 4 == 1)
         e2e.append({'name': 'e2e-%d' % i, 'seed': rng.randrange(1 << 30), 'tcp': tcp,
                     'sndbuf': 1 if not tcp else 4096, 'rcvbuf': 0 if not tcp else 4096,
-                    'hotw': 3, 'bodyw': 3, 'pollw': 1, 'perw': 120 if tier == 'quick' else 300,
-                    'maxbody': rng.choice([3000, 9000, 30000]), 'consume': i % 4})
+                    'hotw': 3, 'bodyw': 3, 'pollw': 1, 'perw': 60 if tcp else (120 if tier == 'quick' else 300),
+                    # (TCP with 4 KiB windows moves ~100 KB/s because of delayed ACKs: keep its volume small)
+                    'maxbody': rng.choice([3000, 9000, 30000]) if i % 4 in (0, 2) else rng.choice([600, 2000]),
+                    'consume': i % 4})
     mib = 1 << 20
     nb = 1 if tier == 'quick' else 4
     for i in range(nb):
@@ -386,9 +388,17 @@ def run(prop, tier, seed, replay=None):
         ck.log('harness: %d window behaviours, %d pipe scripts, %d writer schedules, %d e2e, %d bursts'
                % (len(job['window']), len(job['pipe']), len(job['writers']), len(job['e2e']), len(job['burst'])))
         g = gorun.run_harness(TEST, HARNESS, INSTR, inputs={'job': job}, timeout=240 if tier == 'quick' else 2400, workdir=wd)
-        if g.result is None:
-            if not crash_verdict(ck, g, job):
-                ck.inconc('harness produced no result (rc=%d): %s' % (g.rc, g.out[-1500:]))
+        if g.result is None or not g.result.get('complete'):
+            if g.result:
+                absorb(ck, g.result)          # what the parts before the crash found
+            crashed = crash_verdict(ck, g, job)
+            if not crashed and not ck.violations:
+                ck.inconc('harness did not finish (rc=%d): %s' % (g.rc, g.out[-1500:]))
+            if not ck.violations and not ck.inconclusive:
+                ck.inconc('harness did not finish')
+            ck.add('traces_validated_against_impl', 0)
+            if sample_sched:
+                ck.sample({'tlc_behaviour_replayed_on_real_onReadReady': sample_sched['name']})
             return ck.finish()
         r = g.result
         absorb(ck, r)
@@ -566,7 +576,7 @@ def thorough(ck, job, rng):
     rjob['burst'] = job['burst'][:1]
     rjob['e2e'] = job['e2e'][:8]
     g = gorun.run_harness(TEST, HARNESS, None, inputs={'job': rjob}, timeout=2400, race=True)
-    if g.result is None:
+    if g.result is None or not g.result.get('complete'):
         if 'DATA RACE' in g.out:
             ck.notes.append('race detector reported a data race in the -race run: ' + g.out[g.out.find('DATA RACE'):][:600])
         ck.inconc('race-build harness produced no result (rc=%d): %s' % (g.rc, g.out[-800:]))
@@ -608,14 +618,15 @@ def do_replay(ck, path):
     elif part == 'probe':
         job['probes'] = [rep['probe']]
     g = gorun.run_harness(TEST, HARNESS, INSTR, inputs={'job': job}, timeout=900)
-    if g.result is None:
-        ck.inconc('harness produced no result: ' + g.out[-800:])
-        return ck.finish()
-    ck.cov['evaluations'] = 1
     ck.add('states', 0)
     ck.add('transitions', 0)
     ck.add('traces_validated_against_impl', 0)
     ck.sample(rep if part != 'window' else {'replayed': rep['sched']['name']})
+    if g.result is None or not g.result.get('complete'):
+        if not crash_verdict(ck, g, job):
+            ck.inconc('harness did not finish: ' + g.out[-800:])
+        return ck.finish()
+    ck.cov['evaluations'] = 1
     for v in g.result.get('violations') or []:
         ck.violation('%s/%s: %s' % (v['part'], v['kind'], v['detail']), rep, name=os.path.basename(path))
     pr = g.result.get('probes') or {}
